@@ -119,6 +119,8 @@ func TestC02(t *testing.T) {
 	p = c.rec.NewPart("boundary_inputs", "length-, count- and code-point boundary inputs (see C07); case-folding code points are NOT excluded here", false, true, "")
 	c.ParRange(p, int64(len(hb)), func(w *Worker, i int64) { judge(w, hb[i]) })
 	// comment bodies over case-folding code points and marker letters, exhaustive
+	p = c.rec.NewPart("source_dictionary", "construct openers x sequences of 1..5 symbols around each word that occurs as a literal in the XSS source files (see C07)", false, true, "")
+	c.htmlDictInputs(p, judge)
 	p = c.rec.NewPart("unicode_fold_comments", "5 comment openers x every body of length 0..5 over {U+0131, U+017F, U+1FBE, a, [, i}", false, true, "")
 	c.EnumSeq(p, []string{"\xc4\xb1", "\xc5\xbf", "\xe1\xbe\xbe", "a", "[", "i"}, "", 0, 5, func(w *Worker, s string) {
 		for _, op := range []string{"<!--", "<!", "<?", "<%", "</ "} {
@@ -151,10 +153,32 @@ func TestC02(t *testing.T) {
 			}
 		}
 	}
+	// closed and empty constructs, and every pair of markup atoms: a scanner that continues with the next
+	// construct by calling itself instead of returning needs one frame per construct
+	units := []string{"<![CDATA[]]>", "<![CDATA[a]]>", "<!---->", "<!--a-->", "<!--a--!>", "<%%>", "<%a%>", "<?a>", "<??>", "<!a>", "<!>", "</>", "</a>", "<a>", "<a/>", "<a b>", "<a b=c>", "<a b=''>", "<a b='c'>", "<a b=\"c\">", "<a b=`c`>",
+		"<!doctype a>", "<!doctype>", "&#x6a;", "&#106", "&;", "]]>", "-->", "<a b= >", "<a =>", "<a b=c/>", "<a\x00>", "</a b=c>", "<a b='>'>", "a=b ", "a='b' ", "<a b=c d=e>", "<![CDATA[]]>a", "<!---->a", "<%%>a", "<a></a>", "<a>b</a>"}
+	for _, a := range htmlAtoms {
+		for _, b := range htmlAtoms {
+			units = append(units, a+b)
+		}
+	}
+	seenUnit := map[string]bool{}
+	for _, u := range pairs {
+		seenUnit[u] = true
+	}
+	for _, a := range gen.AlphaHTML {
+		seenUnit[a] = true
+	}
+	for _, u := range units {
+		if !seenUnit[u] {
+			seenUnit[u] = true
+			pairs = append(pairs, u)
+		}
+	}
 	for _, u := range pairs {
 		probes = append(probes, ev.Case{Kind: "stack", In: u, N: 1 << 20})
 	}
-	p = c.rec.NewPart("stack_probes", fmt.Sprintf("%d repetition inputs (single symbols and pairs over the HTML alphabet) at 1 MB in child processes with a 16 MB stack limit", len(probes)), false, true, "")
+	p = c.rec.NewPart("stack_probes", fmt.Sprintf("%d repetition inputs (single symbols and pairs over the HTML alphabet, closed and empty constructs, every pair of markup atoms) at 1 MB in child processes with a 16 MB stack limit", len(probes)), false, true, "")
 	c.ParRange(p, int64(len(probes)), func(w *Worker, i int64) { w.JudgeSlow(probes[i]) })
 
 	p = c.rec.NewPart("rapid_fragments", "rapid over the HTML fragment grammar", true, false, "")
